@@ -4,6 +4,6 @@ PATCH=$1; shift
 cd /repo && git diff --quiet || { echo "/repo not clean"; exit 2; }
 git -C /repo apply "$PATCH" || exit 2
 for p in "$@"; do
-  ( cd /verif && ./check $p --tier ${TIER:-quick} 2>&1 | tail -8; echo "rc=${PIPESTATUS[0]}" )
+  ( cd /verif && VERIF_SCRATCH_EVIDENCE=1 ./check $p --tier ${TIER:-quick} 2>&1 | tail -8; echo "rc=${PIPESTATUS[0]}" )
 done
 git -C /repo checkout -- .
